@@ -252,7 +252,7 @@ func (w *World) StartFeed(h, coll int, id string, backfill uint64, dump, keysOnl
 }
 
 // StartBucketFeed starts a bucket-level (multi-collection) feed through handle h.
-func (w *World) StartBucketFeed(h int, colls []int, id string, backfill uint64, dump bool, ckptPrefix string, stepFn func() int) (*FeedLog, error) {
+func (w *World) StartBucketFeed(h int, colls []int, id string, backfill uint64, dump bool, ckptPrefix string, stepFn func() int, noDone ...bool) (*FeedLog, error) {
 	f := &FeedLog{ID: id, Done: make(chan struct{}), Term: make(chan bool), stepFn: stepFn}
 	scopes := map[string][]string{}
 	for _, c := range colls {
@@ -260,6 +260,9 @@ func (w *World) StartBucketFeed(h int, colls []int, id string, backfill uint64, 
 		scopes[n.Scope] = append(scopes[n.Scope], n.Collection)
 	}
 	args := sgbucket.FeedArguments{ID: id, Backfill: backfill, Dump: dump, Terminator: f.Term, DoneChan: f.Done, Scopes: scopes, CheckpointPrefix: ckptPrefix}
+	if len(noDone) > 0 && noDone[0] {
+		args.DoneChan = nil // (f.Done then simply never closes)
+	}
 	err := w.Handles[h].StartDCPFeed(context.Background(), args, f.callback, nil)
 	return f, err
 }
